@@ -712,6 +712,7 @@ type sliceReader struct {
 	data []byte
 	cuts []int // ascending offsets at which a Read must stop
 	pos  int
+	ci   int // first cut not yet passed
 }
 
 func (s *sliceReader) Read(p []byte) (int, error) {
@@ -719,11 +720,11 @@ func (s *sliceReader) Read(p []byte) (int, error) {
 		return 0, io.EOF
 	}
 	end := len(s.data)
-	for _, c := range s.cuts {
-		if c > s.pos {
-			end = c
-			break
-		}
+	for s.ci < len(s.cuts) && s.cuts[s.ci] <= s.pos {
+		s.ci++
+	}
+	if s.ci < len(s.cuts) {
+		end = s.cuts[s.ci]
 	}
 	if end > len(s.data) {
 		end = len(s.data)
